@@ -107,6 +107,12 @@ func main() {
 			r.Extra["load_s"] = p.LoadSecs
 			r.Extra["functions_dataflow_analysed"] = c.F.Analysed
 			r.Extra["dnf_overflows"] = c.F.Overflow
+			if len(km.RenameNotes) > 0 {
+				r.Extra["renamed_functions_recovered"] = km.RenameNotes
+				for _, n := range km.RenameNotes {
+					fmt.Println("NOTE recorded function found under a new name (reported under the recorded one):", n)
+				}
+			}
 		}
 		if r.Finish() != 0 {
 			exit = 1
